@@ -90,6 +90,14 @@ func (self Program) String() string {
 		singletonTypes += "\n"
 	}
 
+	implBlocks := ""
+	for _, implBlock := range self.ImplBlocks {
+		implBlocks += implBlock.String() + "\n"
+	}
+	if implBlocks != "" {
+		implBlocks += "\n"
+	}
+
 	globals := ""
 	for _, glob := range self.Globals {
 		globals += glob.String()
@@ -103,5 +111,5 @@ func (self Program) String() string {
 		functions = append(functions, fn.String())
 	}
 
-	return fmt.Sprintf("%s%s%s%s%s", imports, types, singletonTypes, globals, strings.Join(functions, "\n\n"))
+	return fmt.Sprintf("%s%s%s%s%s%s", imports, types, singletonTypes, implBlocks, globals, strings.Join(functions, "\n\n"))
 }
